@@ -146,6 +146,12 @@ fn cases(tier: &str) -> Vec<Case> {
             out.push(Case::Shape(h));
         }
     }
+    if tier == "thorough" {
+        // five types with up to two bases each (chains of depth 4): verdict, layout and text only
+        for h in shapes_limited(5, 2) {
+            out.push(Case::Shape(h));
+        }
+    }
     for (what, text) in short_table_texts() {
         out.push(Case::Mutation(Some(format!("short table: {what}")), text));
     }
@@ -300,7 +306,7 @@ pub fn run(tier: &str, only: Option<&Value>) -> i32 {
                     files.get_mut("m.rs").unwrap().push_str(&appendix(&m));
                     rcases.push(RCase::new(files));
                     rown.push(j);
-                    if ps == 8 && (0..h.types.len()).any(|i| m.has_vftable(i)) {
+                    if ps == 8 && h.types.len() <= 4 && (0..h.types.len()).any(|i| m.has_vftable(i)) {
                         let mut files = b.files.clone();
                         files.get_mut("m.rs").unwrap().push_str(&driver(&m));
                         xcases.push(RCase::new(files));
